@@ -349,10 +349,16 @@ class WARCRecorder(object):
                 with open(self._warc_filename, mode='r+b') as out_file:
                     out_file.truncate(before_offset)
 
-            raise error
-        finally:
+            # The archive is restored, so the journal is not needed any more.
+            # If the rollback itself failed, the journal stays: it names the
+            # offset to cut back to and keeps the next run from starting on
+            # a damaged archive.
             if os.path.exists(journal_filename):
                 os.remove(journal_filename)
+
+            raise error
+
+        os.remove(journal_filename)
 
         after_offset = os.path.getsize(self._warc_filename)
 
